@@ -127,9 +127,11 @@ fn probe_mem_area_type(x: u32) -> (&'static str, Option<u32>, bool) {
 }
 
 fn probe_elf_type(x: u32) -> (&'static str, Option<u32>, bool) {
-    match conv::elf_class(x) {
-        None => ("unused", None, true),
-        Some(d) => ("used", Some(d), true),
+    // a panic of the library (or of the probe's own consistency assertions) is a mismatch, not a tool error
+    match std::panic::catch_unwind(|| conv::elf_class(x)) {
+        Err(_) => ("panic", None, false),
+        Ok(None) => ("unused", None, true),
+        Ok(Some(d)) => ("used", Some(d), true),
     }
 }
 
@@ -184,6 +186,10 @@ fn law_sweep(which: &str, stride: u64) {
                         }
                     }
                     x += stride;
+                    // hopeless: the verdict is clear, do not spend the time limit on counting
+                    if bad.load(Ordering::Relaxed) > 100_000 {
+                        break;
+                    }
                 }
                 checked.fetch_add(n, Ordering::Relaxed);
             });
@@ -202,6 +208,7 @@ pub fn main(args: &[String]) {
         law_sweep(&args[0], args.get(3).map(|s| s.parse().unwrap()).unwrap_or(1));
         return;
     }
+    std::panic::set_hook(Box::new(|_| {}));
     let which = args[0].clone();
     let rows = load_table(&args[1], &args[2]);
     let stride: u64 = args.get(3).map(|s| s.parse().unwrap()).unwrap_or(1);
@@ -240,6 +247,10 @@ pub fn main(args: &[String]) {
                         }
                     }
                     x += stride;
+                    // hopeless: the verdict is clear, do not spend the time limit on counting
+                    if bad.load(Ordering::Relaxed) > 100_000 {
+                        break;
+                    }
                 }
                 checked.fetch_add(n, Ordering::Relaxed);
             });
